@@ -150,6 +150,8 @@ class Buffer:
             o.ingest_data_rate * o.duration - o.total_data_size
             for o in self.admitted_observations
         )
+        # ... and to observations already on their way back
+        numerator += self._data_left_to_receive
         return numerator / self.hot[b].total_capacity < self.threshold
 
     def check_buffer_capacity(self, observation):
@@ -405,6 +407,8 @@ class Buffer:
             self.cold[b].observations['transfer'] = None
             return False
         self._add_event(current_obs, "transfer", "started")
+        # Several moves may be in flight: account for each one's remainder
+        self._data_left_to_receive += data_left_to_transfer
         while True:
             if data_left_to_transfer <= 0:
                 LOGGER.info(
@@ -417,6 +421,7 @@ class Buffer:
             rate = min(
                 self.hot[b].max_ingest_data_rate, self.cold[b].max_data_rate
             )
+            previously_left = data_left_to_transfer
             check = self.hot[b].receive_observation(
                 current_obs,
                 data_left_to_transfer,
@@ -432,7 +437,9 @@ class Buffer:
                 )
             if pbar:
                 pbar.update(n=self.cold[b].max_data_rate)
-            self._data_left_to_receive = data_left_to_transfer
+            self._data_left_to_receive -= (
+                previously_left - data_left_to_transfer
+            )
             yield self.env.timeout(TIMESTEP)
         if pbar:
             pbar.close()
